@@ -1479,10 +1479,13 @@ func buildFromStringProto(src protoreflect.FieldDescriptor, ext protoFieldExtens
 			}
 
 		case "natural_key":
-			keyField.Format = &schema_j5pb.KeyFormat{
-				Type: &schema_j5pb.KeyFormat_Informal_{
-					Informal: &schema_j5pb.KeyFormat_Informal{},
-				},
+			// a custom pattern from the key annotation takes precedence
+			if keyField.Format == nil {
+				keyField.Format = &schema_j5pb.KeyFormat{
+					Type: &schema_j5pb.KeyFormat_Informal_{
+						Informal: &schema_j5pb.KeyFormat_Informal{},
+					},
+				}
 			}
 		}
 	}
